@@ -241,7 +241,8 @@ contract('harness:nf_endpoints', harness=H_NF_END, module='gnpy.core.elements', 
          params={'amp': EDFA(), 'type_variety': string(), 'gain_min': real(), 'gain_max': real(), 'nf_min': real(),
                  'nf_max': real()},
          requires=[('range', 'gain_min < gain_max')],
-         raises={'EquipmentConfigError': None},
+         # degenerate datasheets (coils that cancel) are refused, or divide by zero in the inversion formulas
+         raises={'EquipmentConfigError': None, 'ZeroDivisionError': None},
          ensures=[('nf_min_at_max_flat_gain', '-0.01 <= result[0] - nf_min and result[0] - nf_min <= 0.01'),
                   ('nf_max_at_min_gain', '-0.01 <= result[1] - nf_max and result[1] - nf_max <= 0.01'),
                   ('first_coil_at_least_4dB', 'result[2] >= 4')],
